@@ -42,6 +42,7 @@ extern crate trust_dns_resolver;
 use jemallocator::Jemalloc;
 
 #[cfg(not(target_env = "msvc"))]
+#[cfg(not(pgcat_verif))]
 #[global_allocator]
 static GLOBAL: Jemalloc = Jemalloc;
 
